@@ -20,6 +20,12 @@ Documented anchor rule (laythe_vm/src/compiler/mod.rs, peephole.rs):
   `a + b`                   -> the last token of `b`;   `x.p` -> `p`;   `x[i]` -> the last token of `i`
   `for v in it`             -> the last token of `it` (IterNext / IterCurrent)
   a catch clause that declines the error runs ContinueUnwind on the line of its closing brace.
+
+Shapes that cross natives (nested interpreter loops) are all in scope: errors and exit() inside the callbacks of
+each/map/reduce/any/all/filter/for-in/call()/print->str()/List.sort (comparator), a try in the very frame that
+drives a lazy iterator, and modules: a second module with a callback, a module imported in the middle of the
+script (`impmod`, its script frame runs on the import fiber), and a module that does not compile (`import_bad`,
+through `import m;` or `import m: {f};`, from the script or from an imported module).
 """
 import random
 from urllib.parse import quote
@@ -28,36 +34,49 @@ from urllib.parse import quote
 # by c18.check_native_table()
 STACK_NATIVES = {"each": ("iter.rs", "ITER_EACH"), "reduce": ("iter.rs", "ITER_REDUCE"), "any": ("iter.rs", "ITER_ANY"),
                  "all": ("iter.rs", "ITER_ALL"), "call": ("fun.rs", "FUN_CALL"), "print": ("../misc.rs", "PRINT"),
-                 "[]": ("list.rs", "LIST_INDEX_GET")}
+                 "[]": ("list.rs", "LIST_INDEX_GET"), "sort": ("list.rs", "LIST_SORT")}
 STACKLESS_NATIVES = {"list": ("iter.rs", "ITER_LIST"), "next": ("iter.rs", "ITER_NEXT")}
 
 LINK_KINDS = ["fn", "fn", "fn", "method", "method", "init", "static", "super", "lamlet", "lamlet", "each", "maplist",
-              "reduce", "any", "all", "filterlist", "forin", "call", "printstr", "libfn"]
-NATIVE_CALLBACK_KINDS = {"each", "maplist", "reduce", "any", "all", "filterlist", "forin", "call", "printstr"}
+              "reduce", "any", "all", "filterlist", "forin", "call", "printstr", "libfn", "sort", "sort"]
+# links that run the next frame in a nested interpreter loop (a native calls back)
+NATIVE_CALLBACK_KINDS = {"each", "maplist", "reduce", "any", "all", "filterlist", "forin", "call", "printstr", "sort"}
 STACKLESS_CALLBACK_KINDS = {"maplist", "filterlist", "forin"}
-LAMBDA_PARAMS = {"each": 1, "maplist": 1, "reduce": 2, "any": 1, "all": 1, "filterlist": 1, "forin": 1}
+LAMBDA_PARAMS = {"each": 1, "maplist": 1, "reduce": 2, "any": 1, "all": 1, "filterlist": 1, "forin": 1, "sort": 2}
 NATIVES_OF = {"each": ["each"], "reduce": ["reduce"], "any": ["any"], "all": ["all"], "call": ["call"],
-              "printstr": ["print"], "maplist": [], "filterlist": [], "forin": []}
+              "printstr": ["print"], "maplist": [], "filterlist": [], "forin": [], "sort": ["sort"]}
+# frames whose body is the top level of a module (an `import` statement is only allowed there)
+MODULE_KINDS = ("script", "impmod")
 
 ERR_CLASSES = {  # class -> ancestor chain
     "Error": ["Error"], "MyErr": ["MyErr", "Error"], "SubErr": ["SubErr", "MyErr", "Error"],
     "InitErr": ["InitErr", "Error"], "OtherErr": ["OtherErr", "Error"],
     "RuntimeError": ["RuntimeError", "Error"], "IndexError": ["IndexError", "Error"],
     "PropertyError": ["PropertyError", "Error"], "TypeError": ["TypeError", "Error"],
+    "NoMsgErr": ["NoMsgErr", "Error"],
 }
+# NoMsgErr never calls super.init: its message stays nil and is reported as `nil`
 USER_ERR_DECLS = ["class MyErr : Error {}", "class SubErr : MyErr {}",
-                  "class InitErr : Error { init(message) { super.init(message); } }", "class OtherErr : Error {}"]
+                  "class InitErr : Error { init(message) { super.init(message); } }", "class OtherErr : Error {}",
+                  "class NoMsgErr : Error { init() { } }"]
 
 FINAL_KINDS = ["raise", "raise", "raise", "raisesub", "raisesub", "add_nil", "undef_prop", "not_callable", "index",
-               "raise_nonerror", "exit", "exit", "finish"]
+               "raise_nonerror", "sort_nonnum", "exit", "exit", "finish"]
 RUNTIME_FINALS = {
     "add_nil": ("RuntimeError", "Operands must be two numbers or two strings."),
-    "undef_prop": ("?", "Undefined property foo on class Nil."),
+    "undef_prop": ("PropertyError", "Undefined property foo on class Nil."),
     "not_callable": ("RuntimeError", "Nil is not callable."),
     "index": ("IndexError", "Index out of bounds. list was length 1 but attempted to index with 5."),
     "raise_nonerror": ("RuntimeError", "Can only raise an instance of Error"),
+    # raised by the native List.sort itself (on top of the frame: `native:0 in sort()`) after its comparator returned nil
+    "sort_nonnum": ("TypeError", "comparator must return a number."),
 }
+NATIVE_ON_TOP = {"index": "[]", "sort_nonnum": "sort"}
 EXIT_CODES = [0, 1, 2, 3, 7, 42, 100, 255, 256, 257, 1000, 65535]
+# modules that do not compile (parser, resolver and compiler diagnostics)
+BAD_MODULES = ["export fn f() {\n  return 1 +;\n}\n", "export let f = ;\n", "export fn f() { return zzz_undefined; }\n",
+               "export fn f() { break; }\n", "export let f = 1;\nlet f = 2;\n"]
+N_FILLERS = 7
 
 
 # ---------------------------------------------------------------------------------------------
@@ -65,6 +84,8 @@ EXIT_CODES = [0, 1, 2, 3, 7, 42, 100, 255, 256, 257, 1000, 65535]
 
 
 def gen_plan(rng, max_depth=8):
+    if rng.random() < 0.06:
+        return gen_module_plan(rng)
     depth = rng.choice([0, 1, 1, 2, 2, 3, 3, 4, 5, 6, 7, 8])
     depth = min(depth, max_depth)
     frames = [{"kind": "script", "params": 0, "lib": False}]
@@ -101,17 +122,23 @@ def gen_plan(rng, max_depth=8):
     if fk == "raise":
         final.update(cls="Error", msg=rng.choice(["boom", "bad thing happened", "E1"]))
     elif fk == "raisesub":
-        final.update(cls=rng.choice(["MyErr", "SubErr", "InitErr"]), msg=rng.choice(["sub boom", "oops"]))
+        final.update(cls=rng.choice(["MyErr", "SubErr", "InitErr", "NoMsgErr"]), msg=rng.choice(["sub boom", "oops"]))
+        if final["cls"] == "NoMsgErr":
+            final["msg"] = "nil"
         if frames[-1]["lib"]:
             final.update(kind="raise", cls="Error")
     elif fk == "exit":
         final.update(code=rng.choice(EXIT_CODES + [None]))
+    return finish_plan(rng, frames, final)
+
+
+def finish_plan(rng, frames, final):
     # handlers
     for i, f in enumerate(frames):
         f["handler"] = None
         f["handler2"] = None     # a second try nested inside the first one, same frame
-        f["fill"] = [rng.randrange(6) for _ in range(rng.choice([0, 0, 1, 2]))]
-        if f["params"] == 0 and rng.random() < 0.38:
+        f["fill"] = [rng.randrange(N_FILLERS) for _ in range(rng.choice([0, 0, 1, 2]))]
+        if rng.random() < 0.38:
             f["handler"] = gen_handler(rng, i, final)
             if rng.random() < 0.3:
                 f["handler2"] = gen_handler(rng, i, final)
@@ -122,6 +149,22 @@ def gen_plan(rng, max_depth=8):
                        "p_stmt": rng.choice([0.3, 0.8, 1.0, 1.0]), "p_blank": rng.choice([0.0, 0.1, 0.3]),
                        "p_comment": rng.choice([0.0, 0.05, 0.2])}}
     return sanitize(plan)
+
+
+def gen_module_plan(rng):
+    """The innermost frame is the top level of a module: the script itself, or a module it imports in the middle
+    of the script (`impmod`: that module's script frame runs on the import fiber).  Ends with the import of a
+    module that does not compile, with exit(), or normally."""
+    frames = [{"kind": "script", "params": 0, "lib": False}]
+    if rng.random() < 0.5:
+        frames.append({"kind": "impmod", "params": 0, "lib": False})
+    fk = rng.choice(["import_bad", "import_bad", "import_bad", "exit", "finish"])
+    final = {"kind": fk}
+    if fk == "import_bad":
+        final.update(sym=rng.random() < 0.4, bad=rng.randrange(len(BAD_MODULES)))
+    elif fk == "exit":
+        final.update(code=rng.choice(EXIT_CODES + [None]))
+    return finish_plan(rng, frames, final)
 
 
 def fix_lib(frames):
@@ -162,6 +205,11 @@ def normalize(plan):
             if k != "fn":
                 return None
             f["lib"] = True
+        elif k == "impmod":
+            if j != 1 or len(frames) != 2:
+                return None
+            f["lib"] = False
+            f["params"] = 0
         else:
             f["lib"] = False
             f.pop("cbparam", None)
@@ -175,6 +223,10 @@ def normalize(plan):
     fin = plan["final"]
     if fin["kind"] == "raisesub" and frames[-1]["lib"]:
         fin.update(kind="raise", cls="Error")
+    if fin["kind"] == "import_bad" and frames[-1]["kind"] not in MODULE_KINDS:
+        return None
+    if frames[-1]["kind"] == "impmod" and fin["kind"] not in ("import_bad", "exit", "finish"):
+        return None      # an error raised on the import fiber does not reach the importing frames (fibers: out of this stream)
     for f in frames:
         f.setdefault("handler", None)
         f.setdefault("handler2", None)
@@ -247,8 +299,6 @@ def walk(plan, stop_at=None):
         if stop_at == (c, t):
             res["arriving"] = (chain, msg)
         f = resolve_filter(h["filter"], chain)
-        if chain[0] == "?" and (f not in (None, "Error") or h["printcls"]):
-            res["sensitive_cls_use"] = True
         if f is None or f in chain:
             a = h["action"]
             if a == "cont":
@@ -274,20 +324,19 @@ def final_outcome(plan):
 
 
 def sanitize(plan):
-    """Keep the plan outside the signatures of known findings / known defects of other properties."""
+    """Keep the plan well formed and outside the signature of the one known finding that is still open (D181)."""
     frames, final = plan["frames"], plan["final"]
+    n = len(frames)
     for j, f in enumerate(frames):
-        if f["params"] != 0:
-            f["handler"] = f["handler2"] = None        # D1: no try inside a function with parameters
-        if f["kind"] in STACKLESS_CALLBACK_KINDS:
-            # D185: try in the frame that itself drives a stack-less native callback
-            frames[j - 1]["handler"] = frames[j - 1]["handler2"] = None
+        # an `import` statement must stay at module level: no try around the site of a frame that imports
+        if (j + 1 < n and frames[j + 1]["kind"] == "impmod") or (j + 1 == n and final["kind"] == "import_bad"):
+            f["handler"] = f["handler2"] = None
     for j, f in enumerate(frames):
         if not f.get("handler"):
             f["handler2"] = None
         for h in handlers_of(f):
-            if f["lib"]:
-                # the library module does not see the main module's error classes
+            if f["lib"] or f["kind"] == "impmod":
+                # the other module does not see the main module's error classes
                 if h["filter"] in ("exact", "super", "OtherErr"):
                     h["filter"] = "Error"
                 if h["action"] == "wrapsub":
@@ -297,39 +346,11 @@ def sanitize(plan):
                 h.setdefault("cls", "Error")
     for _ in range(60):
         sim = walk(plan)
-        changed = False
-        if sim["sensitive_cls_use"]:
-            # D20: the class of a missing-property error depends on the optimiser; never filter on / print it
-            for f in frames:
-                for h in handlers_of(f):
-                    if h["filter"] not in (None, "Error"):
-                        h["filter"] = None
-                    h["printcls"] = False
-            changed = True
-        if sim["declined_before_uncaught"] is not None:
-            # D181: an unhandled error that passed a declining catch clause
-            c, t = sim["declined_before_uncaught"]
-            handlers_of(frames[c])[t]["filter"] = None
-            changed = True
-        for c in sim["exit_frames"]:
-            # D182: exit() while a native function is on the stack
-            if any(frames[j]["kind"] in NATIVE_CALLBACK_KINDS for j in range(1, c + 1)):
-                if c == len(frames) - 1 and final["kind"] == "exit":
-                    final.clear()
-                    final.update(kind="finish")
-                else:
-                    for h in handlers_of(frames[c]):
-                        if h["action"] == "exit":
-                            h["action"] = "cont"
-                changed = True
-        if not changed:
+        if sim["declined_before_uncaught"] is None:
             break
-    # an undefined-property error must never end uncaught (its class would be printed)
-    chain, _ = err_chain_of_final(final)
-    if chain and chain[0] == "?" and walk(plan)["outcome"] == "uncaught":
-        final.clear()
-        final.update(kind="add_nil")
-        return sanitize(plan)
+        # D181 (open): an unhandled error that passed a declining catch clause
+        c, t = sim["declined_before_uncaught"]
+        handlers_of(frames[c])[t]["filter"] = None
     return plan
 
 
@@ -411,7 +432,9 @@ FILLERS = [
     "while false {{ }}",
     "let {v} = \"s\" + \"t\" ;",
     "let {v} = ( 1 , 2 ) ;",
+    "print ( ) ;",          # writes an empty line
 ]
+PRINTING_FILLERS = {6: ""}
 
 
 class Renderer:
@@ -427,6 +450,9 @@ class Renderer:
         self.natives = [[] for _ in range(self.n)]
         self.after = [[] for _ in range(self.n)]
         self.uses_user_errs = False
+        self.mod_body = None      # token list of mod.lay (link kind impmod)
+        self.bad_module = None    # text of bad.lay (final import_bad)
+        self.file_names = ["main.lay"] + (["lib.lay"] if any(f["lib"] for f in self.frames) else [])
 
     def fresh(self):
         self.vcount += 1
@@ -461,6 +487,15 @@ class Renderer:
         S = lambda role: ("s", i, role)
         p = f["params"]
         self.files[j] = 1 if f["lib"] else 0
+        if kind == "impmod":
+            self.names[j] = "script"
+            self.file_names.append("mod.lay")
+            self.files[j] = len(self.file_names) - 1
+            self.mod_body = body(None)
+            ts = toks("import self . mod ;")
+            ts[0].tags.append(S("lo"))
+            ts[-2].tags += [S("hi"), S("anchor")]
+            return ts
         if kind in ("fn", "libfn", "cb", "call"):
             name = "f%d" % j
             self.names[j] = name
@@ -562,6 +597,12 @@ class Renderer:
             ts = toks("[ 0 ] . iter ( ) . reduce ( 0 ,") + lam + toks(") ;")
             ts[0].tags.append(S("lo"))
             ts[-2].tags += [S("hi"), S("anchor")]
+        elif kind == "sort":
+            # two elements: the comparator is called exactly once; it must answer a number when it returns
+            lam = lam[:-1] + stmt(toks("return 0 ;")) + lam[-1:]
+            ts = toks("[ 2 , 1 ] . sort (") + lam + toks(") ;")
+            ts[0].tags.append(S("lo"))
+            ts[-2].tags += [S("hi"), S("anchor")]
         elif kind in ("maplist", "filterlist"):
             ts = toks("[ 0 ] . iter ( ) . %s (" % ("map" if kind == "maplist" else "filter")) + lam + toks(") . list ( ) ;")
             ts[0].tags.append(S("lo"))
@@ -582,7 +623,15 @@ class Renderer:
         if k in ("raise", "raisesub"):
             if fin["cls"] != "Error":
                 self.uses_user_errs = True
-            ts = toks("raise %s ( \"%s\" ) ;" % (fin["cls"], fin["msg"].replace(" ", "\x00")))
+            if fin["cls"] == "NoMsgErr":
+                ts = toks("raise NoMsgErr ( ) ;")
+            else:
+                ts = toks("raise %s ( \"%s\" ) ;" % (fin["cls"], fin["msg"].replace(" ", "\x00")))
+            ts[0].tags.append(S("lo"))
+            ts[-2].tags += [S("hi"), S("anchor")]
+        elif k == "import_bad":
+            self.bad_module = BAD_MODULES[fin.get("bad", 0) % len(BAD_MODULES)]
+            ts = toks("import self . bad : { f } ;" if fin.get("sym") else "import self . bad ;")
             ts[0].tags.append(S("lo"))
             ts[-2].tags += [S("hi"), S("anchor")]
         elif k == "add_nil":
@@ -603,6 +652,10 @@ class Renderer:
             ts[0].tags.append(S("lo"))
             ts[-2].tags.append(S("hi"))
             ts[4].tags.append(S("anchor"))
+        elif k == "sort_nonnum":
+            ts = toks("[ 2 , 1 ] . sort ( | a , x | nil ) ;")
+            ts[0].tags.append(S("lo"))
+            ts[-2].tags += [S("hi"), S("anchor")]
         elif k == "raise_nonerror":
             ts = toks("raise 5 ;")
             ts[0].tags.append(S("lo"))
@@ -700,11 +753,19 @@ class Renderer:
             text2, where2 = layout(lib, lay2)
             files["lib.lay"] = text2
             where_by_file[1] = where2
-        return files, self.describe(where_by_file, uses_lib)
+        if self.mod_body is not None:
+            lay3 = dict(lay)
+            lay3["seed"] = lay["seed"] ^ 0x3C3C
+            text3, where3 = layout(self.mod_body, lay3)
+            files["mod.lay"] = text3
+            where_by_file[self.file_names.index("mod.lay")] = where3
+        if self.bad_module is not None:
+            files["bad.lay"] = self.bad_module
+        return files, self.describe(where_by_file)
 
-    def describe(self, where_by_file, uses_lib):
+    def describe(self, where_by_file):
         q = lambda s: quote(s, safe="")
-        out = ["files", "2" if uses_lib else "1", q("@/main.lay")] + ([q("@/lib.lay")] if uses_lib else [])
+        out = ["files", str(len(self.file_names))] + [q("@/" + n) for n in self.file_names]
         out += ["frames", str(self.n)]
         for i, f in enumerate(self.frames):
             w = where_by_file[self.files[i]]
@@ -712,6 +773,10 @@ class Renderer:
             out += ["F", q(self.marker(i)), q(self.names[i]), str(self.files[i])] + [str(x) for x in site]
             out += [str(len(self.natives[i]))] + [q(x) for x in self.natives[i]]
             out += [str(len(self.after[i]))] + [q(x) for x in self.after[i]]
+            # does the call to the next frame run it in a nested interpreter loop (a native calls back)?
+            out.append("1" if i + 1 < self.n and self.frames[i + 1]["kind"] in NATIVE_CALLBACK_KINDS else "0")
+            pre = [PRINTING_FILLERS[k] for k in f.get("fill", []) if k in PRINTING_FILLERS]
+            out += [str(len(pre))] + ["E" + q(x) for x in pre]
             hs = handlers_of(f)
             out += ["H", str(len(hs))]
             for t, h in enumerate(hs):
@@ -729,10 +794,12 @@ class Renderer:
         fin = self.final
         chain, msg = err_chain_of_final(fin)
         if chain:
-            top = ["[]"] if fin["kind"] == "index" else []
+            top = [NATIVE_ON_TOP[fin["kind"]]] if fin["kind"] in NATIVE_ON_TOP else []
             out += ["raise", q(",".join(chain)), q(msg), str(len(top))] + [q(x) for x in top]
         elif fin["kind"] == "exit":
             out += ["exit", "-" if fin.get("code") is None else str(fin["code"])]
+        elif fin["kind"] == "import_bad":
+            out.append("importfail")
         else:
             out.append("finish")
         return " ".join(out)
@@ -758,6 +825,26 @@ def features(plan):
             d["filter_%s" % h["filter"]] = d.get("filter_%s" % h["filter"], 0) + 1
     if any(f.get("lib") for f in fr):
         d["second_module"] = 1
+    # the shapes of the repaired findings (D182–D185, D1) — in scope, counted for the evidence
+    sim = walk(plan)
+    raises = err_chain_of_final(plan["final"])[0] is not None
+    for c in sim["exit_frames"]:
+        k = sum(1 for j in range(1, c + 1) if fr[j]["kind"] in NATIVE_CALLBACK_KINDS)
+        if k:
+            d["exit_under_native_callback"] = 1
+            d["exit_under_%d_natives" % min(k, 3)] = 1
+    if raises:
+        for j, f in enumerate(fr[:-1]):
+            if handlers_of(f) and fr[j + 1]["kind"] in STACKLESS_CALLBACK_KINDS:
+                d["try_in_frame_driving_lazy_iterator"] = d.get("try_in_frame_driving_lazy_iterator", 0) + 1
+            if handlers_of(f) and f["params"]:
+                d["try_in_frame_with_parameters"] = d.get("try_in_frame_with_parameters", 0) + 1
+        if any(f["kind"] == "sort" for f in fr[1:]) or plan["final"]["kind"] == "sort_nonnum":
+            d["error_crosses_sort"] = 1
+    if plan["final"]["kind"] == "import_bad":
+        d["import_bad_symbol_form" if plan["final"].get("sym") else "import_bad_module_form"] = 1
+        if fr[-1]["kind"] == "impmod":
+            d["import_bad_from_imported_module"] = 1
     lay = plan["layout"]
     d["layout_ptok_%s" % lay["p_tok"]] = 1
     return d
